@@ -319,13 +319,20 @@ def sec_sampling(rec, order=1, corner_safe=False, patches=None, free_axis=None, 
             if corner_safe:
                 continue  # coverage under rotation is checked with concrete orientations
             cover_h += [Rz[i2][j] == (1 if i2 == j else 0) for i2 in range(3) for j in range(3)]
-        need_lo, need_hi = {0: (Fraction(-1, 2), Fraction(-1, 2)), 1: (0, 0), 3: (1, 1)}[order]
+        # scipy's mode='constant' returns cval for every coordinate outside [0, n-1], also for order 0 (nearest neighbour does NOT extend half a voxel beyond the edge)
+        need_lo, need_hi = {0: (0, 0), 1: (0, 0), 3: (1, 1)}[order]
         obox = [z3.And(o[j] >= 0, o[j] <= _real(zi(shp[j])) - 1) for j in range(3)]
         for a in range(3):
             local = zsum_row(M, a, o)
             Lz = _real(zi(src.shape[a]))
-            rec_query(f"{tag}/path{i}/window-covers-axis{a}", cover_h + obox,
-                      z3.And(local >= need_lo, local <= Lz - 1 - need_hi), key="C02/sampling/window-coverage", names=names, replay=rp)
+            # prefer counterexamples that miss the window by a margin a float32 position can express (an excess of 1e-9 voxel does not survive the public API)
+            clear = z3.Or(local <= need_lo - Fraction(1, 8), local >= Lz - 1 - need_hi + Fraction(1, 8))
+            # only samples that lie inside the tomogram matter (the others are fill values either way)
+            t_a = local + _real(zi(src.origin[a]))
+            in_tomo = [t_a >= 0, t_a <= _real(size[a].e) - 1]
+            _q0(f"{tag}/path{i}/window-covers-axis{a}", cover_h + obox + in_tomo,
+                z3.And(local >= need_lo, local <= Lz - 1 - need_hi), key="C02/sampling/window-coverage", names=names, replay=rp,
+                prefer=[st + [clear] for st in prefer] + prefer)
     rec.extra[tag] = {"paths": len(paths), "accepted": n_ok}
 
 
@@ -466,7 +473,19 @@ def sec_conformance(rec):
         blk = ndi.affine_transform(img, T, output_shape=(3, 3, 3), order=order, mode="constant", prefilter=order > 1)
         worst = max(worst, float(np.abs(blk - img[2:5, 1:4, 3:6]).max()))
     ok = worst < 1e-9
-    rec.fact("conformance/ndimage.affine_transform", ok, key="C02/conformance/ndimage", detail={"max_abs": worst}, reproduced=None)
+    # support of the interpolation as the coverage queries assume it: with mode='constant' a coordinate outside [0, n-1] gives cval for EVERY order
+    # (nearest neighbour does not reach half a voxel beyond the edge); inside [0, n-1] orders 0 and 1 never return cval
+    line = np.arange(5, dtype=float) + 1
+    edge_ok = True
+    for order in (0, 1):
+        for off in (-0.49, -0.25, 0.0, 0.25, 0.49):
+            o = ndi.affine_transform(line, [1.0], offset=off, output_shape=(6,), order=order, mode="constant", cval=-9.0, prefilter=False)
+            for k in range(6):
+                inside = 0 <= k + off <= 4
+                if (o[k] == -9.0) == inside:
+                    edge_ok = False
+    ok = ok and edge_ok
+    rec.fact("conformance/ndimage.affine_transform", ok, key="C02/conformance/ndimage", detail={"max_abs": worst, "support_is_[0,n-1]_for_orders_0_and_1": edge_ok}, reproduced=None)
     if not ok:
         rec.error("conformance/ndimage.affine_transform", f"stub contract disagrees with scipy: {worst}")
     # dask pad(mode='mean') of an empty block is NaN, of a non-empty block finite
@@ -542,6 +561,8 @@ MUTANTS = [
     ("slicepad:revert-fix-z0", "checks.c02", "sec_slicepad", {}, {_U: [("    elif size <= z0:\n", "    elif size < z0:\n")]}),
     ("slicepad:pad-off-by-one", "checks.c02", "sec_slicepad", {}, {_U: [("z1_pad = z1 - size", "z1_pad = z1 - size + 1")]}),
     ("slicepad:oob-flag-and", "checks.c02", "sec_slicepad", {}, {_U: [("out_of_bound = z0_pad != 0 or z1_pad != 0", "out_of_bound = z0_pad != 0 and z1_pad != 0")]}),
+    ("affine:no-margin-for-order-0 (defect fixed by 611acbc)", "checks.c02", "sec_sampling", {"order": 0},
+     {_U: [("    margin = max(order, 1)\n    for c, s, s0 in zip(center, output_shape, img.shape):", "    margin = order\n    for c, s, s0 in zip(center, output_shape, img.shape):")]}),
     ("affine:output-center-half-pixel", "checks.c02", "sec_sampling", {"order": 1},
      {_U: [("def prepare_affine(\n    img: da.Array,\n    center: Sequence[float],\n    output_shape: Sequence[int],\n    rot: Rotation,\n    order: int = 3,\n) -> tuple[da.Array, NDArray[np.float32]]:\n    output_center = np.array(output_shape) / 2 - 0.5",
             "def prepare_affine(\n    img: da.Array,\n    center: Sequence[float],\n    output_shape: Sequence[int],\n    rot: Rotation,\n    order: int = 3,\n) -> tuple[da.Array, NDArray[np.float32]]:\n    output_center = np.array(output_shape) / 2")]}),
